@@ -22,8 +22,11 @@ CONSTANT TraceFile
 Trace == ndJsonDeserialize(TraceFile)
 
 VARIABLES l,   \* next trace line
-          C    \* current abstract configuration
-vars == <<l, C>>
+          C,   \* current abstract configuration
+          N    \* per route of C: the criteria that the current RENDERING of C writes only through named matchers
+               \* (`@name { ... }` + `match @name`); the spelling does not enter Outcome - every spelling of a criteria
+               \* set must resolve like the inline block - it is only counted
+vars == <<l, C, N>>
 
 (* ------------------------------------------------------------ registers *)
 CritIx == [path |-> 0, method |-> 1, host |-> 2, hdr |-> 3, q |-> 4, ip |-> 5]
@@ -34,23 +37,33 @@ RAcc(k)  == 30 + AuthIx[k]        \* accepted (observed and expected) per auth k
 RRej(k)  == 40 + AuthIx[k]        \* rejected by authentication (observed and expected) per auth kind
 R404 == 50
 R405 == 51
+\* criterion kinds of the configuration language, counted when the deciding criterion was written through a named matcher
+FineIx == [method |-> 0, host |-> 1, header |-> 2, header_exists |-> 3, query |-> 4, query_exists |-> 5, remote_ip |-> 6]
+RNSat(f)  == 60 + FineIx[f]
+RNViol(f) == 70 + FineIx[f]
+FineOf(c, rt) ==
+  CASE c = "method" -> "method" [] c = "host" -> "host" [] c = "ip" -> "remote_ip"
+    [] c = "hdr" -> (IF rt.m.hdr.k = "value" THEN "header" ELSE "header_exists")
+    [] c = "q"   -> (IF rt.m.q.k = "value" THEN "query" ELSE "query_exists")
 RNonInboundSkipped == 52          \* a non-inbound route matched all criteria and was passed over
 RFirstOfSeveral == 53             \* more than one inbound route matched: order decided
 Registers == {RSat(c) : c \in Criteria} \cup {RViol(c) : c \in Criteria} \cup {RAcc(k) : k \in DOMAIN AuthIx}
              \cup {RRej(k) : k \in DOMAIN AuthIx} \cup {R404, R405, RNonInboundSkipped, RFirstOfSeveral}
+             \cup {RNSat(f) : f \in DOMAIN FineIx} \cup {RNViol(f) : f \in DOMAIN FineIx}
 ASSUME \A r \in Registers : TLCSet(r, 0)
 Bump(r) == TLCSet(r, TLCGet(r) + 1)
 BumpIf(b, r) == IF b THEN Bump(r) ELSE TRUE
 
 Chk(name, b) == IF b THEN TRUE ELSE PrintT(<<"FAIL", l, Trace[l].ev, name>>)
 
-Init == l = 1 /\ C = <<>>
+Init == l = 1 /\ C = <<>> /\ N = <<>>
 
 IsEvent(name) == l <= Len(Trace) /\ Trace[l].ev = name /\ l' = l + 1
 
 TraceCfg ==
   /\ IsEvent("Cfg")
   /\ C' = Trace[l].cfg
+  /\ N' = IF "named" \in DOMAIN Trace[l] THEN Trace[l].named ELSE [i \in DOMAIN Trace[l].cfg |-> <<>>]
 
 (* ----------------------------------------------------------- comparison *)
 NewRoutes(obs) == {obs.new[k].ri : k \in DOMAIN obs.new}
@@ -89,6 +102,9 @@ Cover(cfg, rq, obs) ==
   IN /\ \A c \in Criteria :
           /\ BumpIf(\E i \in inb : Decides(c, cfg[i], rq) /\ Holds(c, cfg[i], rq), RSat(c))
           /\ BumpIf(\E i \in inb : Decides(c, cfg[i], rq) /\ ~Holds(c, cfg[i], rq), RViol(c))
+     /\ \A c \in {"method", "host", "hdr", "q", "ip"} : \A i \in inb :
+          (i \in DOMAIN N /\ c \in Range(N[i]) /\ Decides(c, cfg[i], rq))
+             => Bump(IF Holds(c, cfg[i], rq) THEN RNSat(FineOf(c, cfg[i])) ELSE RNViol(FineOf(c, cfg[i])))
      /\ BumpIf(Accepted(o) /\ obs.status \in OKStatus, RAcc(cfg[IF r = 0 THEN 1 ELSE r].auth.k))
      /\ BumpIf(r # 0 /\ ~Accepted(o) /\ obs.status \in o.status, RRej(cfg[IF r = 0 THEN 1 ELSE r].auth.k))
      /\ BumpIf(o.status = {404} /\ obs.status = 404, R404)
@@ -115,7 +131,7 @@ TraceReq ==
         /\ Chk("rejected_but_enqueued", obs.status \notin OKStatus => Len(obs.new) = 0)
         /\ Chk("accepted_but_not_enqueued", obs.status \in OKStatus => Len(obs.new) >= 1)
         /\ Cover(C, rq, obs)
-  /\ UNCHANGED C
+  /\ UNCHANGED <<C, N>>
 
 Next == TraceCfg \/ TraceReq
 Spec == Init /\ [][Next]_vars
@@ -124,7 +140,8 @@ CovRecord ==
   [sat  |-> [c \in Criteria |-> TLCGet(RSat(c))], viol |-> [c \in Criteria |-> TLCGet(RViol(c))],
    acc  |-> [k \in DOMAIN AuthIx |-> TLCGet(RAcc(k))], rej |-> [k \in DOMAIN AuthIx |-> TLCGet(RRej(k))],
    s404 |-> TLCGet(R404), s405 |-> TLCGet(R405), noninbound_skipped |-> TLCGet(RNonInboundSkipped),
-   first_of_several |-> TLCGet(RFirstOfSeveral)]
+   first_of_several |-> TLCGet(RFirstOfSeveral),
+   named_sat |-> [f \in DOMAIN FineIx |-> TLCGet(RNSat(f))], named_viol |-> [f \in DOMAIN FineIx |-> TLCGet(RNViol(f))]]
 
 \* every line consumed: one state per line plus the initial state
 TraceAccepted ==
